@@ -499,6 +499,50 @@ let rdhrt_line line =
   let r = decode_rdh b in
   hex_of_bytes (encode_rdh r) ^ " " ^ field_sig r
 
+(* ---- C17: thread-local replay of an event trace against the protocol LTS ---- *)
+let proto_line line =
+  let (head, body) = split_head line in
+  match split_ws head with
+  | [mode; cap; sso; wso] ->
+    let m = match mode with "check" -> Mcheck | "view" -> Mview | "write" -> Mwrite | _ -> Mnone in
+    let c = { c_mode = m; c_cap = nat_of_int (int_of_string cap); c_stats_stdout = (sso = "1"); c_write_stdout = (wso = "1") } in
+    let b x = x = "1" in
+    let ev tok =
+      match String.split_on_char ':' tok with
+      | ["rt"] -> T_r_top
+      | ["rb"; n; cp] -> T_r_batch (nat_of_int (int_of_string n), nat_of_int (int_of_string cp))
+      | ["re"] -> T_r_eof
+      | ["rs"] -> T_r_sent
+      | ["rx"] -> T_r_senderr
+      | ["rq"; st; ls] -> T_r_exit (b st, b ls)
+      | ["at"] -> T_a_top
+      | ["ar"; n] -> T_a_recv (nat_of_int (int_of_string n))
+      | ["ad"] -> T_a_disc
+      | ["as"] -> T_a_stats
+      | ["aw"; ok] -> T_a_worked (b ok)
+      | ["aj"; st] -> T_a_join (b st)
+      | ["aq"] -> T_a_exit
+      | ["wr"; n] -> T_w_recv (nat_of_int (int_of_string n))
+      | ["wd"] -> T_w_disc
+      | ["ws"] -> T_w_stop
+      | ["wp"] -> T_w_push
+      | ["wf"] -> T_w_fail
+      | ["wq"] -> T_w_drop
+      | ["md"] -> T_m_droprecv
+      | ["mf"] -> T_m_forwarded
+      | ["mc"] -> T_m_joinC
+      | ["ms"] -> T_m_joinS
+      | ["cr"; k; st] -> T_c_recv ((match k with "1" -> K_error | "2" -> K_fatal | _ -> K_other), b st)
+      | ["cf"] -> T_c_finish
+      | ["cq"] -> T_c_exit
+      | _ -> failwith ("bad proto token " ^ tok)
+    in
+    let evs = List.rev (List.rev_map ev (split_ws body)) in
+    (match replay_thread cur_pfacts c evs with
+     | None -> "ok"
+     | Some i -> "rej " ^ string_of_int (int_of_nat i))
+  | _ -> "bad-head"
+
 let () =
   let stream = Sys.argv.(1) in
   let handler =
@@ -523,6 +567,7 @@ let () =
     | "statsfile" -> statsfile_line
     | "wordspec" -> wordspec_line
     | "rdhspec" -> rdhspec_line
+    | "proto" -> proto_line
     | _ -> prerr_endline ("unknown stream " ^ stream); exit 2
   in
   let buf = Buffer.create (1 lsl 20) in
